@@ -270,3 +270,34 @@ def c18_math(tier="quick", seed=0):
         oid = f"C18.bounded.math.{fn}"
         out.append(ob(oid, bad is None, "B", f"{n} calls" if bad is None else f"{bad[0]} -> {bad[1]!r}, ECMAScript {bad[2]!r}", witness=(bad[0] if bad else None), confirmed=True if bad else None, domain=n, key=oid))
     return out
+
+
+@groups.group(id="C18.whitespace", prop="C18", kind="K4", functions=["microjs.values:JS_WHITESPACE", "microjs.values:_string_to_number", "microjs.values:parse_int", "microjs.values:parse_float"])
+def c18_whitespace(tier="quick", seed=0):
+    """exhaustion over every BMP code point c: Number(c + '42' + c), parseInt(c + '42'), parseFloat(c + '4.5') treat c
+    as strippable white space exactly when c is an ECMAScript WhiteSpace or LineTerminator (11.2, 11.3)"""
+    from microjs import Context
+    from specs.es_core import ES_WHITESPACE
+    c = Context(time_limit=60)
+    src = ("var bad = []; for (var cp = 0; cp < 65536; cp++) { if (cp >= 0xD800 && cp <= 0xDFFF) continue; var ch = String.fromCharCode(cp);"
+           " var a = Number(ch + '42' + ch) === 42, b = parseInt(ch + '42') === 42, d = parseFloat(ch + '4.5') === 4.5, e = Number(ch) === 0;"
+           " bad.push((a ? 1 : 0) + (b ? 2 : 0) + (d ? 4 : 0) + (e ? 8 : 0)); } bad")
+    got = c.eval(src)
+    cps = [cp for cp in range(65536) if not (0xD800 <= cp <= 0xDFFF)]
+    out = []
+    names = {1: "Number", 2: "parseInt", 4: "parseFloat", 8: "Number-of-lone-whitespace"}
+    import specs.es_number as N
+    from specs.es_core import StringToNumber
+    spec = {1: lambda ch: StringToNumber(ch + "42" + ch) == 42, 2: lambda ch: N.parse_int(ch + "42", 0) == 42,
+            4: lambda ch: N.parse_float(ch + "4.5") == 4.5, 8: lambda ch: StringToNumber(ch) == 0}
+    for bit, nm in names.items():
+        bad = None
+        for cp, g in zip(cps, got):
+            want = bool(spec[bit](chr(cp)))
+            if want != (chr(cp) in ES_WHITESPACE) and chr(cp) not in "+-0.":
+                raise AssertionError(f"spec functions disagree with the WhiteSpace table at U+{cp:04X}")
+            if bool(g & bit) != want and bad is None:
+                bad = (cp, bool(g & bit), want)
+        out.append(ob(f"C18.whitespace.{nm}", bad is None, "K4", f"{len(cps)} code points" if bad is None else f"U+{bad[0]:04X}: engine treats it as {'white space' if bad[1] else 'not white space'}, ECMAScript the opposite",
+                      witness=(f"{nm}(String.fromCharCode(0x{bad[0]:x}) + '42')" if bad else None), confirmed=True if bad else None, domain=len(cps)))
+    return out
